@@ -88,7 +88,7 @@ func methodOf(s string) byte {
 
 // pattern gives stream i's k-th byte in direction d: the top bits identify stream and direction so
 // that a byte landing on the wrong stream is visible.
-func pattern(stream, dir, k int) byte { return byte(stream<<6 | dir<<5 | (k & 31)) }
+func pattern(stream, dir, k int) byte { return byte(stream<<6 | dir<<5 | ((k + k/32) & 31)) }
 
 func patternBytes(stream, dir, from, n int) []byte {
 	b := make([]byte, n)
